@@ -705,10 +705,11 @@ def _formatnum_reverse(ctx: "Wtp", arg0: str) -> str:
     # Kludge for French; the locale data has non-breaking spaces as the
     # separators, but it seems clear we must also allow normal spaces
     if sep == "\xa0":  # non-breaking space
-        return arg0.replace(decimal, ".").replace(sep, "").replace(" ", "")
+        return arg0.replace(sep, "").replace(" ", "").replace(decimal, ".")
 
     # Currently only doing the minimum by removing thousand separators
-    return arg0.replace(decimal, ".").replace(sep, "")
+    # (first, because the separator may itself be a full stop)
+    return arg0.replace(sep, "").replace(decimal, ".")
 
 
 def dateformat_fn(
